@@ -76,7 +76,7 @@ CLAIMS = {
          "C11_bincode_trailing_rejected (codec inductions over the full Machine type, varint/LE/Option/Vec/array/enum), C11_roundtrip (with the recorded flate2 "
          "contract: from_str (serialize m) = m for every validated machine whose encoding fits 1 MiB), C11_reject_or_valid (for every string and every behaviour "
          "of zlib, from_str returns an error or a validated machine). The Coq codecs are compared byte for byte with the bincode and base64 crates, and the real "
-         "pipeline and v1 parser are run on hostile strings under catch_unwind.", "DESIGN.md section 4, C11"),
+         "pipeline and v1 parser are run on hostile strings under catch_unwind. The legacy v1 parser is modelled slice by slice (Model/Codec/V1.v): C11_v1_never_panics (no byte string makes parse_v1 panic) and C11_v1_valid; it is compared with the real parse_v1_machine on mutated and structured payloads.", "DESIGN.md section 0 and 4, C11"),
 
  "C20": ("PARTIAL (deallocation by maybenot_stop and UB-freedom of the unsafe blocks are runtime properties outside the model). Theorems C20_on_events "
          "(with non-null arguments the actions written are exactly map convert_action of what trigger_events returns, in order, their count reported and never above "
@@ -95,11 +95,12 @@ CLAIMS = {
          "processed; sim_loop_r is the loop returning its stop reason, proved equal to sim_loop), C15_sorted. Proved by a counting invariant over the whole main loop (induction on its fuel), "
          "heap operations handled as permutations. The simulator model is tied to sim_advanced by the trace-level differential (every draw of both frameworks recorded).", "DESIGN.md section 0 and 4, C15"),
 
- "C16": ("PARTIAL at trace level. Theorems C16_no_leak (EVERY TunnelSent of EVERY returned trace was released by pick_next in an iteration reachable from the initial state in which its side "
-         "was not blocking, or blocking bypassably with the packet carrying the bypass flag), C16_block_rule (start / replace / longest-of and the conjunction rule for the bypass flag), "
-         "C16_blocking_end (every BlockingEnd of every trace is the expiry of that side's blocking, reported at the expiry, clearing it), C16_bypass_origin, and C16_zero_duration_refuted "
-         "(known finding F8). The blocking state in C16_no_leak is the simulator's own state (existential), connected to the action stream by the step rule; the single trace-level rule is decided "
-         "on generated runs by the monitor, which replays the actions through fresh frameworks. Fixes F10 and F14 were found by this check.", "DESIGN.md section 0 and 4, C16"),
+ "C16": ("Theorems C16_trace (whole runs on parsed traces, over the returned trace and the actions only: after a BlockingBegin of a side caused by a BlockOutgoing of positive duration and until the next "
+         "BlockingEnd of that side, every TunnelSent of that side carries the bypass flag: nothing else leaves a blocked side), C16_no_leak (EVERY TunnelSent of EVERY returned trace was released in a "
+         "reachable state in which its side was not blocking, or blocking bypassably with the packet carrying the bypass flag), C16_block_rule (start / replace / longest-of; the bypass flag is set by a "
+         "start or replace and and-ed by an extension), C16_blocking_end (every BlockingEnd is the expiry of that side's blocking, at the expiry, clearing it), C16_bypass_origin, C16_zero_duration_refuted "
+         "(known finding F8). PARTIAL in one respect: the 'every contributing action allowed bypass' clause is proved about the simulator's own flag (no_leak + rule), not restated over the trace alone; "
+         "the replaying monitor checks it on generated runs. Fixes F10 and F14 were found by this check.", "DESIGN.md section 0 and 4, C16"),
 
  "C17": ("Theorem C17_trace (whole runs on parsed traces recording all events): the returned trace is the event column of a history H (each processed event with the actions its side's framework "
          "returned) in which every PaddingSent/BlockingBegin for machine m is caused by an earlier record of the same side holding a SendPadding/BlockOutgoing action for m, happens exactly at issue "
